@@ -192,6 +192,7 @@ func hbGet(h *HintBuffer, kh uint64, key string) *HintItem {
 //@   ints math
 //@   requires hbWF(h)
 //@   ensures it == hbGet(h, keyhash, key)
+//@   ensures iscollision == (hbHasIdx(h, keyhash) && key != h.items[h.index[keyhash]].Key)      // C13: another key owns the slot of this hash - reported whether or not this key is in the buffer too (GC keeps a record it cannot rule out)
 //@   ensures it != nil ==> hbIs(it, keyhash, key) && exists(0, h.num, func(i int) bool { return h.items[i] == it })
 //@   ensures it == nil ==> forall(0, h.num, func(i int) bool { return !hbIs(h.items[i], keyhash, key) })
 //@   ensures forall(0, h.num, func(i int) bool { return hbIs(h.items[i], keyhash, key) ==> h.items[i] == it })   // at most one slot per (hash, key)
